@@ -109,6 +109,11 @@ def run_variants(ctx, variants):
             res.update(status="analysis-broken", detail=str(e)[:200])
             results.append(res)
             continue
+        except Exception as e:   # a rule crashed on the variant: framework defect, keep going
+            import traceback
+            res.update(status="RULE-CRASH", detail=traceback.format_exc()[-300:])
+            results.append(res)
+            continue
         new = got - base
         if v.get("expect"):
             rule, sub = v["expect"]
